@@ -42,13 +42,15 @@ pub(crate) fn range_with_prefix<'a>(
         None => namespace.to_vec(),
     };
     let end = match end {
-        Some(e) => concat(namespace, e),
+        Some(e) => Some(concat(namespace, e)),
+        // no key sorts after all keys of this namespace, the range is open-ended
+        None if is_last_namespace(namespace) => None,
         // end is updating last byte by one
-        None => namespace_upper_bound(namespace),
+        None => Some(namespace_upper_bound(namespace)),
     };
 
     // get iterator from storage
-    let base_iterator = storage.range(Some(&start), Some(&end), order);
+    let base_iterator = storage.range(Some(&start), end.as_deref(), order);
 
     // make a copy for the closure to handle lifetimes safely
     let prefix = namespace.to_vec();
@@ -59,6 +61,17 @@ pub(crate) fn range_with_prefix<'a>(
 #[inline]
 fn trim(namespace: &[u8], key: &[u8]) -> Vec<u8> {
     key[namespace.len()..].to_vec()
+}
+
+/// Returns true if the namespace is empty or consists only of bytes 255,
+/// in which case [namespace_upper_bound] wraps around and is not an upper bound.
+fn is_last_namespace(namespace: &[u8]) -> bool {
+    for byte in namespace.iter() {
+        if *byte != 255 {
+            return false;
+        }
+    }
+    true
 }
 
 /// Returns a new vec of same length and last byte incremented by one
